@@ -31,6 +31,10 @@ TERMINALS = (("Alpha", "A", "count_alpha"), ("Capitalization", "C", "count_alpha
              ("Other", "O", "count_other"), ("Keyboard", "K", "count_keyboard"))
 
 
+import loader_tie as _loader_tie
+TRUSTED = TRUSTED + [_loader_tie.TRUSTED]
+
+
 def mem_omen(rec):
     ot = rec.omen_trainer
     ip = [(d['ip_level'], k) for k, d in ot.grammar.items()]
@@ -559,6 +563,9 @@ def run(ctx):
             "written ruleset, compared value-for-value with the trainer's counters and tables; config.ini lists vs directory "
             "listings; plus damaged copies of the files for the readers' recovery paths; non-trivial = a value on disk holds a "
             "special or non-ASCII character; distinct by (encoding, training bytes)")
+    # second tie to the source (translator): the readers re-translated from the Python text equal the model readers
+    import loader_tie
+    corr.append(loader_tie.obligation())
     known_expl = all(("U+2029" in b or "omen-scorer" in b) for b in [x["sig"] for x in vio]) if vio else False
     return {"evaluations": dist["runs"] * 4 + sum(dist["corrupted_files"].values()) * 2, "distinct_nontrivial": nontrivial, "rule": rule,
             "samples": samples, "corr": corr, "violations": vio, "dist": dist, "corr_explained_by_known": known_expl}
